@@ -197,7 +197,7 @@ theorem agrees_of_shows {ci : CItem} {i : Item} {wv : Bool} (h : Shows ci i wv) 
   exact ⟨rfl, rfl, h2, h3⟩
 
 /-- `GetItem` on any cached view of a coherent tree: succeeds, answers as Model A's `get`, leaves
-    a view of the same tree, reads only what `Allowed` admits -/
+    a view of the same tree, reads only what `Allowed` permits -/
 theorem getC_spec (f : Bytes) (bound : Nat) (cmp : Bytes → Bytes → Ordering) (wv : Bool) (k : Bytes) :
     ∀ (fuel : Nat) (c : CTree) (T : Tree), T.Coherent f bound → Rep c T → T.height < fuel →
     ∃ res c' rds, getC f cmp wv fuel c k = some (res, c', rds) ∧ Rep c' T ∧
@@ -572,7 +572,7 @@ def absVisit (cmp : Bytes → Bytes → Ordering) (asc : Bool) (T : Tree) (tgt :
 /-- `VisitItemsAscend` / `VisitItemsDescend` (never-stopping visitor) on any cached view of a
     coherent tree: succeeds, presents exactly Model A's sequence with the true depths (values
     whenever asked for, never a wrong one), leaves a view of the same tree, reads only what
-    `Allowed` admits -/
+    `Allowed` permits -/
 theorem visitC_spec (f : Bytes) (bound : Nat) (cmp : Bytes → Bytes → Ordering) (asc wv : Bool)
     (tgt : Bytes) :
     ∀ (fuel : Nat) (c : CTree) (T : Tree) (d : Nat), T.Coherent f bound → Rep c T → T.height < fuel →
